@@ -347,21 +347,36 @@ def remLoop (P : Params) (text : Str) : RAcc → Str → PyM RAcc
     | .ok a' => remLoop P text a' cs
     | .error e => .error e
 
+/-- the exemplar, once its labels are known: the length limit, then value and timestamp -/
+def remExemplar (P : Params) (a : RAcc) (ls : Labels) : PyM OExemplar :=
+  let len := (ls.map (fun kv => kv.1.length + kv.2.length)).sum
+  if natCmp exemplarLenCmp len exemplarMaxLen then .error .valueError
+  else
+    match P.parseValue a.exValue.reverse with
+    | .error e => .error e
+    | .ok ev =>
+      match parseTimestamp P a.exTs.reverse with
+      | .error e => .error e
+      | .ok ets => .ok ⟨ls, ev, ets⟩
+
 /-- what follows the loop -/
-def remFinish (P : Params) (val : Num) (a : RAcc) : PyM (Num × Option OTs × Option OExemplar) := do
-  if a.state == .timestamp && a.timestamp.isEmpty then throw .valueError
-  if a.state == .exemplartimestamp && a.exTs.isEmpty then throw .valueError
-  if a.state == .exemplarhash || a.state == .exemplarspace || a.state == .exemplarstartoflabels
-      || a.state == .exemplarparsedlabels then throw .valueError
-  let ts ← parseTimestamp P a.timestamp.reverse
-  match a.exLabels with
-  | none => pure (val, ts, none)
-  | some ls =>
-    let len := (ls.map (fun kv => kv.1.length + kv.2.length)).sum
-    if natCmp exemplarLenCmp len exemplarMaxLen then throw .valueError
-    let ev ← P.parseValue a.exValue.reverse
-    let ets ← parseTimestamp P a.exTs.reverse
-    pure (val, ts, some ⟨ls, ev, ets⟩)
+def remFinish (P : Params) (val : Num) (a : RAcc) : PyM (Num × Option OTs × Option OExemplar) :=
+  match runChecks [
+      raiseIf (a.state == .timestamp && a.timestamp.isEmpty),
+      raiseIf (a.state == .exemplartimestamp && a.exTs.isEmpty),
+      raiseIf (a.state == .exemplarhash || a.state == .exemplarspace || a.state == .exemplarstartoflabels
+                || a.state == .exemplarparsedlabels)] with
+  | .error e => .error e
+  | .ok _ =>
+    match parseTimestamp P a.timestamp.reverse with
+    | .error e => .error e
+    | .ok ts =>
+      match a.exLabels with
+      | none => .ok (val, ts, none)
+      | some ls =>
+        match remExemplar P a ls with
+        | .error e => .error e
+        | .ok ex => .ok (val, ts, some ex)
 
 /-- `_parse_remaining_text(text)` → (value, timestamp, exemplar) -/
 def parseRemainingText (P : Params) (text : Str) : PyM (Num × Option OTs × Option OExemplar) := do
@@ -687,32 +702,53 @@ def leOf (s : OSample) : PyM Str :=
     | some v => .ok v
     | none => .error .keyError
 
+/-- `if g != group or s.timestamp != timestamp:` — close the previous group (`do_checks()`), reset the locals -/
+def histReset (P : Params) (h : HSt) (g : Option Labels) (ts : Option OTs) : PyM HSt :=
+  if !optDictEq g h.group || !tsEq P ts h.ts then
+    match (if h.group.isSome then doChecks P h else .ok ()) with
+    | .error e => .error e
+    | .ok _ => .ok { h with count := none, bucket := none, hasNegBuckets := false, hasSum := false, hasGsum := false,
+                            hasNegGsum := false, value := some (.int 0) }
+  else .ok h
+
+/-- the `_bucket` branch -/
+def histBucket (P : Params) (h : HSt) (s : OSample) : PyM HSt :=
+  match leOf s with
+  | .error e => .error e
+  | .ok le =>
+    match P.floatE le with
+    | .error e => .error e
+    | .ok b =>
+      match raiseIf (match h.bucket with
+          | some prev => P.cmp bucketOrderCmp (.flt b) (.flt prev)
+          | none => false) with
+      | .error e => .error e
+      | .ok _ =>
+        match raiseIfM (P.cmpOpt bucketValueCmp s.value h.value) with
+        | .error e => .error e
+        | .ok _ =>
+          .ok { h with hasNegBuckets := h.hasNegBuckets || P.cmp negBucketCmp (.flt b) (.int 0), bucket := some b, value := s.value }
+
 /-- one iteration of `for s in samples:` -/
-def histStep (P : Params) (name : Str) (h : HSt) (s : OSample) : PyM HSt := do
+def histStep (P : Params) (name : Str) (h : HSt) (s : OSample) : PyM HSt :=
   let suffix := s.name.drop name.length
-  let g ← groupForSample s name tHistogram
-  if suffix.isEmpty then pure h
-  else
-    let h ← (if !optDictEq g h.group || !tsEq P s.ts h.ts then do
-        if h.group.isSome then doChecks P h
-        pure { h with count := none, bucket := none, hasNegBuckets := false, hasSum := false, hasGsum := false,
-                      hasNegGsum := false, value := some (.int 0) }
-      else pure h : PyM HSt)
-    let h := { h with group := g, ts := s.ts }
-    if suffix == sBucket then
-      let b ← P.floatE (← leOf s)
-      let h := if P.cmp negBucketCmp (.flt b) (.int 0) then { h with hasNegBuckets := true } else h
-      match h.bucket with
-      | some prev => if P.cmp bucketOrderCmp (.flt b) (.flt prev) then throw .valueError
-      | none => pure ()
-      if ← P.cmpOpt bucketValueCmp s.value h.value then throw .valueError
-      pure { h with bucket := some b, value := s.value }
-    else if suffix == sCount || suffix == sGcount then pure { h with count := s.value }
-    else if suffix == sSum then pure { h with hasSum := true }
-    else if suffix == sGsum then
-      if ← P.cmpOpt gsumNegCmp s.value (some (.int 0)) then pure { h with hasGsum := true, hasNegGsum := true }
-      else pure { h with hasGsum := true }
-    else pure h
+  match groupForSample s name tHistogram with
+  | .error e => .error e
+  | .ok g =>
+    if suffix.isEmpty then .ok h
+    else
+      match histReset P h g s.ts with
+      | .error e => .error e
+      | .ok h =>
+        let h := { h with group := g, ts := s.ts }
+        if suffix == sBucket then histBucket P h s
+        else if suffix == sCount || suffix == sGcount then .ok { h with count := s.value }
+        else if suffix == sSum then .ok { h with hasSum := true }
+        else if suffix == sGsum then
+          match P.cmpOpt gsumNegCmp s.value (some (.int 0)) with
+          | .error e => .error e
+          | .ok neg => .ok { h with hasGsum := true, hasNegGsum := h.hasNegGsum || neg }
+        else .ok h
 
 def histLoop (P : Params) (name : Str) : HSt → List OSample → PyM HSt
   | h, [] => .ok h
@@ -723,9 +759,10 @@ def histLoop (P : Params) (name : Str) : HSt → List OSample → PyM HSt
 
 /-- `_check_histogram(samples, name)` (the locals of `do_checks` initialised from the start: the only reads before
 the first reset are guarded by `group is not None`, which a reset always precedes) -/
-def checkHistogram (P : Params) (samples : List OSample) (name : Str) : PyM Unit := do
-  let h ← histLoop P name {} samples
-  if h.group.isSome then doChecks P h
+def checkHistogram (P : Params) (samples : List OSample) (name : Str) : PyM Unit :=
+  match histLoop P name {} samples with
+  | .error e => .error e
+  | .ok h => if h.group.isSome then doChecks P h else .ok ()
 
 /-! ## the line / family state machine `text_fd_to_metric_families` -/
 
@@ -933,24 +970,34 @@ def chkGroupTs (P : Params) (typ : Str) (groupTs ts : Option OTs) : PyM Unit :=
       | .ok gt => raiseIf (gt && !tsOrderExempt.contains typ)
     | _, _ => .ok ()
 
+/-- `g = tuple(sorted(_group_for_sample(sample, name, typ).items()))` — `None.items()` is an AttributeError -/
+def groupOf (s : OSample) (name typ : Str) : PyM Labels :=
+  match groupForSample s name typ with
+  | .error e => .error e
+  | .ok none => .error .attributeError
+  | .ok (some d) => .ok (sortByKey d)
+
 /-- grouping, timestamp and duplicate handling of a non-native-histogram sample (lines 610–629) -/
-def groupStep (P : Params) (gr : Grp) (name : Str) (typ : Str) (s : OSample) : PyM Grp := do
-  let g0 ← groupForSample s name typ
-  let g ← (match g0 with
-    | some d => (pure (sortByKey d) : PyM Labels)
-    | none => throw .attributeError)                  -- None.items()
-  let same := gr.group == some g
-  raiseIf (gr.group.isSome && !same && gr.seenGroups.contains g)
-  let gts ← (if gr.group.isSome && same then do
-      chkGroupTs P typ gr.groupTs s.ts
-      pure gr.gtsSamples
-    else pure [] : PyM (List (Str × Labels)))
-  let ls ← labelsOrAttr s
-  let sid := (s.name, sortByKey ls)
-  let samples := if !tsEq P s.ts gr.groupTs || !gts.contains sid then gr.samples ++ [s] else gr.samples
-  pure { samples := samples, gtsSamples := if gts.contains sid then gts else gts ++ [sid],
-         group := some g, groupTs := s.ts,
-         seenGroups := if gr.seenGroups.contains g then gr.seenGroups else gr.seenGroups ++ [g] }
+def groupStep (P : Params) (gr : Grp) (name : Str) (typ : Str) (s : OSample) : PyM Grp :=
+  match groupOf s name typ with
+  | .error e => .error e
+  | .ok g =>
+    let same := gr.group == some g
+    match raiseIf (gr.group.isSome && !same && gr.seenGroups.contains g) with
+    | .error e => .error e
+    | .ok _ =>
+      match (if gr.group.isSome && same then chkGroupTs P typ gr.groupTs s.ts else .ok ()) with
+      | .error e => .error e
+      | .ok _ =>
+        let gts := if gr.group.isSome && same then gr.gtsSamples else []
+        match labelsOrAttr s with
+        | .error e => .error e
+        | .ok ls =>
+          let sid := (s.name, sortByKey ls)
+          .ok { samples := if !tsEq P s.ts gr.groupTs || !gts.contains sid then gr.samples ++ [s] else gr.samples,
+                gtsSamples := if gts.contains sid then gts else gts ++ [sid],
+                group := some g, groupTs := s.ts,
+                seenGroups := if gr.seenGroups.contains g then gr.seenGroups else gr.seenGroups ++ [g] }
 
 /-- `x in [0, 1]`-style membership of a value that may be `None` -/
 def valueIn (P : Params) (v : Option Num) (xs : List Int) : Bool :=
